@@ -260,10 +260,13 @@ def history_to_delivery_trace(result, senders, receivers, frame_of=None):
                 # multipart: identity / delimiter frames first, the payload frames carry '<mid>.<i>'
                 ids = [i for i in r.get("ids", []) if not i.startswith("?") and i != ""]
                 intact = bool(r.get("intact")) or all(x.startswith("?") or x == "" for x in r.get("ids", [])[:1])
-                mid = ids[0].rsplit(".", 1)[0] if ids else "?"
-                want = [mid + ".%d" % (j + 1) for j in range(len(ids))]
-                if ids != want:
-                    intact = False
+                if len(ids) == 1 and "." not in ids[0].rsplit(":", 1)[-1]:
+                    mid = ids[0]                     # a single-frame send() read with recv_multipart()
+                else:
+                    mid = ids[0].rsplit(".", 1)[0] if ids else "?"
+                    want = [mid + ".%d" % (j + 1) for j in range(len(ids))]
+                    if ids != want:
+                        intact = False
                 intact = intact and bool(r.get("intact_payload", True))
             tag, _, k = mid.rpartition(":")
             try:
